@@ -38,7 +38,7 @@ def gen_history(rng, maxlen, maxe=12, maxps=4):
             nd = rng.choice([1, 1, 2, 3])
             dgms = []
             for _ in range(nd):
-                npt = rng.randint(2, 5)
+                npt = rng.randint(2, 5) if nd == 1 else rng.randint(1, 5)        # (collections may hold diagrams with a single pair)
                 dgms.append([[rng.randint(0, maxe) + sh, rng.randint(1, maxe)] for _ in range(npt)])  # (birth, persistence>0) ticks
             bs = [p[0] for d in dgms for p in d]
             ps_ = [p[1] for d in dgms for p in d]
